@@ -150,7 +150,10 @@ theorem closed_step (kw : List String) (st : St) (op : Op) :
   | newModel m => simp only; split <;> exact Or.inl rfl
   | newSpace m s name => simp only; split <;> (try split) <;> exact Or.inl rfl
   | newCells o name sc => simp only; split <;> (try split) <;> exact Or.inl rfl
-  | newPandas o name path csv sheet data => simp only; split <;> exact Or.inl (by simp)
+  | newPandas o name path csv sheet data =>
+    simp only; split
+    · exact Or.inl rfl
+    · split <;> exact Or.inl (by simp)
   | bind o name v => simp only; split <;> exact Or.inl (by simp)
   | del o name => simp only; split <;> exact Or.inl (by simp)
   | update m old new => simp only; split <;> exact Or.inl (by simp)
@@ -180,17 +183,15 @@ theorem closeModel_closed {st : St} (h : RInv st) (m : Nat) :
   obtain ⟨_, _, _, _, e, f⟩ := foldl_delSpec_fields L.reverse st
   refine ⟨by rw [e], fun τ hτ => ⟨((f τ).mp hτ).1, hrel τ hτ⟩⟩
 
-theorem closedFree_step (kw : List String) {st : St} (h : RInv st) (hc : ClosedFree st) {op : Op}
-    (k : trigClosedNew st op = false) : ClosedFree (step kw st op) := by
+theorem closedFree_step (kw : List String) {st : St} (h : RInv st) (hc : ClosedFree st) {op : Op} :
+    ClosedFree (step kw st op) := by
   rcases closed_step kw st op with hcl | ⟨m, rfl, hm, hst⟩
   · intro τ hτ
     rw [hcl]
-    rcases strans_origin (strans_step kw st op) τ hτ with ⟨σ, hσ, hg, _⟩ | ⟨hq, hs⟩
+    rcases strans_origin (strans_step kw st op) τ hτ with ⟨σ, hσ, hg, _⟩ | ⟨hq, hs, hn⟩
     · rw [← hg]; exact hc σ hσ
     · cases op with
-      | newPandas o name path csv sheet data =>
-        simp only [opKey, Option.some.injEq, Prod.mk.injEq] at hq
-        rw [← hq.1]; exact k
+      | newPandas o name path csv sheet data => exact hn rfl
       | setPath m v p =>
         simp only [opKey, Option.some.injEq, Prod.mk.injEq] at hq
         obtain ⟨σ, hσ, hg⟩ := hs rfl
@@ -212,58 +213,6 @@ theorem closedFree_run (kw : List String) : ∀ (ops : List Op) (st : St), RInv 
   | nil => intro st _ hc _; exact hc
   | cons op rest ih =>
     intro st h hc ha
-    exact ih _ (rinv_step kw h ha.1) (closedFree_step kw h hc (clean_parts' ha.1).1) ha.2
-
-/-! ### one file, one key -/
-
-/-- two io keys of one model that denote the same file are the same key -/
-def NoAlias (l : List Spec) : Prop :=
-  ∀ σ ∈ l, ∀ τ ∈ l, σ.group = τ.group → normPath σ.path = normPath τ.path → σ.path = τ.path
-
-theorem trigPathAlias_false {st : St} {op : Op} (k : trigPathAlias st op = false) {m : Nat} {p : String}
-    (hk : opKey op = some (m, p)) :
-    ∀ σ ∈ st.specs, σ.group = m → normPath σ.path = normPath p → σ.path = p := by
-  unfold trigPathAlias at k
-  rw [hk] at k
-  simp only [List.any_eq_false, decide_eq_true_eq] at k
-  intro σ hσ hg hn
-  have := k σ hσ
-  by_cases hp : σ.path = p
-  · exact hp
-  · exact absurd ⟨hg, hn, hp⟩ this
-
-theorem noAlias_step (kw : List String) {st : St} (h : NoAlias st.specs) {op : Op}
-    (k : trigPathAlias st op = false) : NoAlias (step kw st op).specs := by
-  intro σ hσ τ hτ hg hn
-  have t := strans_step kw st op
-  rcases strans_origin t σ hσ with ⟨σ0, h0, g0, p0⟩ | ⟨hq, _⟩ <;>
-    rcases strans_origin t τ hτ with ⟨τ0, h1, g1, p1⟩ | ⟨hq', _⟩
-  · rw [← p0, ← p1]
-    exact h σ0 h0 τ0 h1 (g0.trans (hg.trans g1.symm)) (by rw [p0, p1]; exact hn)
-  · rw [← p0]
-    exact trigPathAlias_false k hq' σ0 h0 (g0.trans hg) (by rw [p0]; exact hn)
-  · rw [← p1]
-    exact (trigPathAlias_false k hq τ0 h1 (g1.trans hg.symm) (by rw [p1]; exact hn.symm)).symm
-  · rw [hq] at hq'
-    simp only [Option.some.injEq, Prod.mk.injEq] at hq'
-    exact hq'.2
-
-theorem noAlias_run (kw : List String) : ∀ (ops : List Op) (st : St), NoAlias st.specs →
-    AllClean kw st ops → NoAlias (run kw st ops).specs := by
-  intro ops
-  induction ops with
-  | nil => intro st h _; exact h
-  | cons op rest ih =>
-    intro st h ha
-    exact ih _ (noAlias_step kw h (clean_parts' ha.1).2) ha.2
-
-/-- two different specs of one FILE of one model (the paths may be spelt differently): an Excel
-file, both name a sheet, the names differ -/
-def LocN (l : List Spec) : Prop :=
-  ∀ σ ∈ l, ∀ τ ∈ l, σ.group = τ.group → normPath σ.path = normPath τ.path → σ ≠ τ →
-    σ.csv = false ∧ σ.sheet ≠ none ∧ τ.sheet ≠ none ∧ σ.sheet ≠ τ.sheet
-
-theorem locN_of {l : List Spec} (hl : Loc l) (hn : NoAlias l) : LocN l :=
-  fun σ hσ τ hτ hg hp hne => hl σ hσ τ hτ hg (hn σ hσ τ hτ hg hp) hne
+    exact ih _ (rinv_step kw h ha.1) (closedFree_step kw h hc) ha.2
 
 end MxModel.IOSpec
